@@ -1,7 +1,7 @@
 """C06 — tweens start on time, end exactly on target, never jump (structural clauses)."""
 from ..paths import parse_term, explore, describe, bool_label, pretty_place, describe_rv
 from ..rules import calls_to, calls_where, order_ok, blocks_of
-from ..facts import callee_path
+from ..facts import callee_path, is_place, op_local
 
 TEXT = ("Parameter::update copies raw_value to previous_raw_value first, dominating every other store; the finish edge of update_tween (time >= duration) leaves Idle{value: *target} and Idle yields the target's raw value unmodified; Parameter::set starts from the current value with time 0 and clears stagnant; stagnant is only set on the finish edge for fixed targets; Parameter::update_tween and Tweener::update (two hand-maintained copies) agree on start-time handling, time accumulation and the finish comparison. Interpolation values and easing curves are not decided. Every Parameter field is updated per chunk and receives its command reader; clock start times are due exactly when Info::when_to_start says so. No exit of a per-chunk function skips a time-keeping update unless the owner was just stopped; modulators, clocks and listeners advance by dt times the frames of this chunk. Each parameter has one update site per function and all time-keeping of a pass advances by the same duration; interpolated_value interpolates from the previous value on every path; Parameter::new falls back to the default of its own setting; a Duration is interpolated through signed seconds; both copies of the tween-timing logic test the delay before they subtract. A field that keeps a value derived from a Parameter of the same object is recomputed after every update of that parameter on every path (all Parameter::update sites are instances); Parameter::update recomputes the raw value on every path on which the parameter is not stagnant. Every running sum of the time step is an f64; per-frame reads are given index / length of the slice being processed; per-chunk time-keeping advances by dt times the length of the slice (or the function's own dt). The stagnant flag has no writer other than the finish edge for fixed targets, set and the constructor; a tweening parameter's value is the interpolation from its start value towards its target (or held). resume(tween) hands on StartTime::Immediate (the tween's own start time is honoured once, by the fade); new sounds are picked up before the callback's command poll. Tweenable::interpolate of f32 / f64 / Vec3 is a + (b - a) x amount and of the unit newtypes the blend of the wrapped numbers as they are (endpoints are not clamped); the gain stages that ramp a volume across the chunk lie on every path of their mixing function. What the tween-advancing function carries from one update to the next (elapsed time, a started latch) lives in the Tweening state or is written by set on every path; clock speeds of different units blend in the target's unit.")
 TECHNIQUE = 'MIR dominance / path-predicate / sibling-agreement rules'
@@ -349,6 +349,10 @@ def run(ctx, R, tier):
     duration_interp(F, R)
     interp_shapes(F, R)
     progress_reset(F, R)
+    config_verbatim(F, R)
+    # 'keeps its old value until the tween's start time': a clock time built from a float is clamped before it is split
+    from .c19 import from_ticks
+    from_ticks(F, R, rule='B.C06.start')
     # clock speeds of different units are blended in the target's unit (the C19 rule)
     from .c19 import speed_units
     speed_units(F, R, rule='B.C06.speed-units')
@@ -635,6 +639,73 @@ def set_rule(F, R):
     sg = [(bb, s) for bb, si, s in b.stmts() if s['k'] == 'assign' and pretty_place(b, s['lhs']) == '(*self).stagnant']
     R.check(len(sg) == 1 and describe_rv(b, sg[0][1]['rv']) == 'False', 'B.C06.set', 'stagnant', 'Parameter::set does not clear stagnant',
             detail='stagnant = false')
+
+
+def config_verbatim(F, R, rule='B.C06.config', fn_filter=None, floor=40):
+    """What a builder or settings struct says is what the running parameter starts from: every `Parameter::new(x, default)` in
+    a constructor is given `x` as it was configured - a parameter of the constructor, a field of its builder / settings
+    argument, the item of the builder's own map of routes, or a constant - never a value converted, clamped or otherwise
+    rewritten on the way (a speed mapping re-expressed in another unit interpolates along another curve)."""
+    n = 0
+    for b in F.bodies:
+        if b.krate != 'kira' or (fn_filter is not None and not fn_filter(b.path)):
+            continue
+        params = [nm for l, nm in b.names.items() if 1 <= l <= b.arg_count]
+        for bb, t in b.calls():
+            if (callee_path(t) or '') != P + '::new':
+                continue
+            n += 1
+            d = describe(b, t['args'][0], depth=6, at=bb)
+            base = d.replace('(*', '').replace(')', '')
+            root = base.split('.')[0]
+            good = (root in params or _re_local.match(root) is not None) and all(_re_ident.match(x) for x in base.split('.')[1:]) and '(' not in base
+            good = good or d.startswith('value::Value::Fixed(const ') \
+                or (d.startswith('<std::collections::hash_map::IntoIter<K, V, A> as std::iter::Iterator>::next(') and '.sends' in d)
+            R.check(good, rule, 'verbatim:%s#%d' % (b.path.split('::{closure')[0].lstrip('<').split(' as ')[0], n),
+                    '%s starts a parameter from %s: not the configured value as it was given' % (b.path, d[:120]),
+                    detail={'initial': d[:120]}, where=b.where(bb), nontrivial=False)
+    R.floor(rule, n, floor)
+    # ... and inside Parameter::new: only a fixed initial value makes the parameter stagnant (a linked one is polled)
+    pn = F.body(P + '::new')
+    if R.check(pn is not None, rule, 'anchor:Parameter::new', 'Parameter::new not found'):
+        ok, why = True, ''
+        seen_true = False
+        for p in explore(pn):
+            if p.end != 'return':
+                continue
+            arm = [lab for _, desc, lab in p.decisions if desc.startswith('discr(') and 'initial_value' in desc]
+            st = None
+            for x in p.blocks:
+                for s in pn.blocks[x]['stmts']:
+                    if s['k'] == 'assign' and s['rv']['k'] == 'agg' and 'stagnant' in (s['rv'].get('fields') or []):
+                        st = s['rv']['ops'][s['rv']['fields'].index('stagnant')]
+            if st is None:
+                ok, why = False, 'no Parameter is built on a path'
+                continue
+            from ..paths import origin_def
+            # the flag's value on this path: a constant, or a temporary assigned per arm
+            val = None
+            for _, desc, lab in p.decisions:
+                pass
+            dv = describe(pn, st, depth=3)
+            l = op_local(st) if is_place(st) else None
+            if l is not None and ('c', l) in p.env:
+                val = bool(p.env[('c', l)])
+            elif dv in ('True', 'False'):
+                val = dv == 'True'
+            fixed = bool(arm) and arm[-1] == 'Fixed'
+            if val is None or not arm:
+                ok, why = False, 'unrecognised-shape: the stagnant flag of a new parameter is %s' % dv[:60]
+            elif val != fixed:
+                ok, why = False, 'a new parameter whose initial value is %s starts with stagnant = %s' % (arm[-1], val)
+            seen_true = seen_true or (val is True)
+        R.check(ok and seen_true, rule, 'Parameter::new:stagnant', 'Parameter::new: %s (a linked parameter that starts stagnant is never polled and keeps its default)' % (why or 'no path sets it'),
+                detail='stagnant iff the initial value is Fixed', where=pn.file)
+
+
+import re as _re0
+_re_local = _re0.compile(r'^_\d+$')
+_re_ident = _re0.compile(r'^[A-Za-z_0-9]+$')
 
 
 def progress_reset(F, R, rule='B.C06.set'):
